@@ -99,6 +99,7 @@ pub fn jobs(tier: Tier) -> Vec<Job> {
             jobs.push(Job::ZeroRange { si, base: Base::Lcg(7), block, full: tier == Tier::Thorough || SYMBOLS[si].ec_per_block() <= 28 });
         }
     }
+    rs::rs_syndrome_prefix(tier, &mut jobs);
     // 10x10 ball
     for pos in 0..8 {
         for val in 1..=255u8 {
@@ -117,7 +118,7 @@ pub fn jobs(tier: Tier) -> Vec<Job> {
 
 pub fn job_size(job: &Job) -> usize {
     match job {
-        Job::Single { si, .. } | Job::Subsets { si, .. } | Job::Burst { si, .. } | Job::Spread { si, .. } | Job::AllBlocks { si, .. } | Job::LeadingZero { si, .. } | Job::Supercode { si, .. } | Job::SyndromeAlphabet { si, .. } | Job::ZeroRange { si, .. } => *si,
+        Job::Single { si, .. } | Job::Subsets { si, .. } | Job::Burst { si, .. } | Job::Spread { si, .. } | Job::AllBlocks { si, .. } | Job::LeadingZero { si, .. } | Job::Supercode { si, .. } | Job::SyndromeAlphabet { si, .. } | Job::ZeroRange { si, .. } | Job::SyndromePrefix { si, .. } => *si,
         Job::Ball10 { .. } => 0,
     }
 }
